@@ -231,7 +231,9 @@ def families(tier, seed):
     # 14. token topology x role: each role (start end group, capping end group, prefix, suffix, connector, repeat unit)
     #     with a ring, an aromatic ring, a branched, an unsaturated, a ring-with-bond-symbol-on-the-closure and (thorough) a
     #     fused-ring token, descriptor on the first atom / on the last atom / in the middle of the token
-    topo = {"ring": "C1CCCCC1", "aromatic": "c1ccccc1", "branched": "C(C)(C)CO", "unsaturated": "C(C#N)=C", "ringbond": "C1CCCC=C1"}
+    topo = {"ring": "C1CCCCC1", "aromatic": "c1ccccc1", "branched": "C(C)(C)CO", "unsaturated": "C(C#N)=C", "ringbond": "C1CCCC=C1",
+            # attachment atom in a higher valence state (sulfone / sulfoxide S, phosphate P): its hydrogen count after bonding
+            "sulfone": "S(=O)(=O)C", "sulfoxide": "S(=O)C", "phosphate": "P(=O)(OC)O"}
     if thorough:
         topo.update({"fused": "C1CCC2CCCCC2C1", "hetero": "c1ccncc1", "spiro-ish": "C1CC1C1CC1"})
     for tn, body in topo.items():
@@ -244,6 +246,12 @@ def families(tier, seed):
         yield Instance(f"topo-unit-side|{tn}", mol(tok("N"), sto("[>]", [u1, "[<]CO[>]"], ["[<]Cl"], "[<]", g0(round(1.2 * mass(u1), 3))), tok("F")), family="role-topology")
         u2 = "[<]" + body + "[>]"
         yield Instance(f"topo-unit-backbone|{tn}", mol(tok("N"), sto("[>]", [u2], [], "[<]", g0(round(1.5 * mass(u2), 3))), tok("F")), family="role-topology")
+    # 16. objects whose two terminals are NOT a conjugate pair (step growth AA + BB: both terminals [>]; ids 1 / 2), as
+    #     second element behind a prefix and in front of a suffix / another object
+    yield Instance("nonconj|aabb", mol(tok("CC(=O)"), sto("[>]", ["[<]OCCO[<]", "[>]C(=O)CC(=O)[>]"], [], "[>]", g0(100.0)), tok("C(=O)C")), family="nonconjugate-terminals")
+    yield Instance("nonconj|aabb-then-object", mol(tok("CC(=O)"), sto("[>]", ["[<]OCCO[<]", "[>]C(=O)CC(=O)[>]"], [], "[>]", g0(100.0)), sto("[<]", ["[>]CS[<]"], [], "[>]", g0(50.0)), tok("[<]F")), family="nonconjugate-terminals")
+    yield Instance("nonconj|ids", mol(tok("N"), sto("[$1]", ["[$1]CC[$2]", "[$2]CO[$1]"], [], "[$2]", g0(60.0)), tok("F")), family="nonconjugate-terminals")
+    yield Instance("nonconj|ids-dir", mol(tok("N"), sto("[>1]", ["[<1]CC[>2]", "[<2]CO[>1]"], [], "[<2]", g0(60.0)), tok("F")), family="nonconjugate-terminals")
     # 15. one descriptor symbol in two bond orders inside ONE object (a cache / table keyed by the descriptor text alone
     #     confuses them): units with a single- and a double-bond descriptor, end groups of both orders, prefix hand-over
     t20 = g0(round(1.6 * mass("[$]CC=[$]"), 3))
